@@ -144,14 +144,24 @@ func runC08(p *P, r *R) {
 			r.ob("R08.2", fn+": a consumed front slice is recycled only when it is not pinned", p.ipos(rc), onFalse, true,
 				"recycling a slice whose bytes were handed out zero-copy is the use-after-free this property is about")
 			r.ob("R08.2", fn+": a pinned consumed slice is parked in the pinned list", p.ipos(rc), parkOK, true, "the pinned edge must keep the slice until the release")
-			// the pinned mark is not cleared before the decision
+			// the pinned mark that the decision tests is read before any clearing of it
 			cleared := false
-			allInstrs(f, func(in ssa.Instruction) {
-				if val, ok := storeBoolTo(in, "linkedBuffer.currentPinned"); ok && !val && p.reaches(in, rc, nil) {
-					cleared = true
+			for _, fct := range factsAt(rc.Block()) {
+				c, _ := stripNot(fct.Cond)
+				if !isPinned(c) {
+					continue
 				}
-			})
-			r.ob("R08.2", fn+": the pinned mark is not cleared before the recycle decision", p.ipos(rc), !cleared, true, "")
+				ld, okl := c.(ssa.Instruction)
+				if !okl {
+					continue
+				}
+				allInstrs(f, func(in ssa.Instruction) {
+					if val, ok := storeBoolTo(in, "linkedBuffer.currentPinned"); ok && !val && p.reaches(in, ld, nil) {
+						cleared = true
+					}
+				})
+			}
+			r.ob("R08.2", fn+": the pinned mark tested by the recycle decision is read before it is cleared", p.ipos(rc), !cleared, true, "")
 		}
 		// reader code must not pop the main list without going through the decision
 		for _, ci := range findInstrs(f, p.mCall("(*sliceList).popFront")) {
